@@ -226,3 +226,63 @@ func guardedAccesses(c *Ctx, r *R, prefix, pkgSuffix, typ, field, mu string) {
 		})
 	}
 }
+
+// deepLocks: the locks certainly held at a deep instruction (deep.go) of root: the lockset is carried along the call chain -
+// locks named through an argument are renamed to the callee's parameter, locks the callee cannot name are kept (it cannot
+// release what it cannot reach) under the key "outer:<caller path>".
+func deepLocks(root *ssa.Function, d deepInstr) lockset {
+	cur := root
+	entry := lockset{}
+	outer := lockset{}
+	for _, call := range d.calls {
+		if call.Parent() != cur {
+			break
+		}
+		held := locksIn(cur, entry)[call]
+		cal := staticCallee(&call.Call)
+		if cal == nil {
+			break
+		}
+		next := lockset{}
+		for lk, mode := range held {
+			translated := false
+			for i, a := range call.Call.Args {
+				ap := path(a)
+				if strings.HasPrefix(lk, ap+".") && i < len(cal.Params) {
+					next[cal.Params[i].Name()+lk[len(ap):]] = mode
+					translated = true
+				}
+			}
+			if !translated {
+				outer["outer:"+lk] = mode
+			}
+		}
+		entry = next
+		cur = cal
+	}
+	out := lockset{}
+	if d.in.Parent() == cur {
+		for k, v := range locksIn(cur, entry)[d.in] {
+			out[k] = v
+		}
+	} else {
+		// a deferred closure of the frame: it runs at the frame's exits; only the outer locks are certain
+		for k, v := range locksIn(d.in.Parent(), lockset{})[d.in] {
+			out[k] = v
+		}
+	}
+	for k, v := range outer {
+		out[k] = v
+	}
+	return out
+}
+
+// heldSuffix: is a mutex whose path ends in .field held (mode 'W' required when write)?
+func (l lockset) heldSuffix(field string, write bool) bool {
+	for lk, m := range l {
+		if strings.HasSuffix(lk, "."+field) && (!write || m == 'W') {
+			return true
+		}
+	}
+	return false
+}
